@@ -182,6 +182,161 @@ theorem uint16Hex_tie (l : Line) (name : Bytes) (v : UInt16) :
   apply val_step; intro t4
   exact appendByte_tie l6 t4
 
+/-- **String** (head, quote, text, step back one byte when the text filled the buffer, quote) -/
+theorem string_tie (l : Line) (name value : Bytes) :
+    genLine_String (G l) name value = liftG (string l name value) := by
+  unfold genLine_String string
+  apply head_step; intro l1
+  rw [appendByte_tie]; apply liftG_bind; intro l2
+  apply copy_step; intro l3
+  simp only [G_upd]
+  have hi : (G l2).idx + ((l3.idx : Int) - (l2.idx : Int)) = (l3.idx : Int) := by simp only [G_idx]; omega
+  rw [hi]
+  by_cases h : l3.idx = bufSize
+  · have h' : (l3.idx : Int) = 2048 := by unfold bufSize at h; omega
+    have hg : ({ buf := l3.buf.1, idx := (l3.idx : Int) - 1 } : GLine) = G ⟨l3.buf, l3.idx - 1⟩ := by
+      unfold bufSize at h; simp only [G]; congr 1; omega
+    rw [if_pos h', if_pos h, hg]
+    exact appendByte_tie _ _
+  · have h' : ¬ (l3.idx : Int) = 2048 := by unfold bufSize at h; omega
+    rw [if_neg h', if_neg h]
+    exact appendByte_tie _ _
+
+/-- the range loop of `ByteArray` from position `pre.length` on renders the remaining bytes -/
+theorem byteArray_loop_eq : ∀ (rest pre : Bytes) (l : Line) (fuel : Nat), rest.length < fuel →
+    genLine_ByteArray_loop1 (pre ++ rest) fuel (pre.length : Int) (G l) = liftG (byteArrayLoop l rest) := by
+  intro rest
+  induction rest with
+  | nil =>
+    intro pre l fuel h
+    cases fuel with
+    | zero => simp at h
+    | succ f =>
+      rw [genLine_ByteArray_loop1]
+      simp [byteArrayLoop]
+  | cons v rest ih =>
+    intro pre l fuel h
+    cases fuel with
+    | zero => simp at h
+    | succ f =>
+      rw [genLine_ByteArray_loop1, byteArrayLoop]
+      have hc : (pre.length : Int) < ((pre ++ v :: rest).length : Int) := by simp; omega
+      simp only [hc, if_true, idxI_append_at, Outcome.bind_ok]
+      rw [writeHex_tie]; apply liftG_bind; intro l1
+      rw [appendByte_tie]; apply liftG_bind; intro l2
+      have := ih (pre ++ [v]) l2 f (by simp at h; omega)
+      simp only [List.append_assoc, List.singleton_append, List.length_append, List.length_singleton] at this
+      rw [← this]; congr 1
+
+theorem G_idx_upd (l l' : Line) : (G l).idx + ((l'.idx : Int) - (l.idx : Int)) = (l'.idx : Int) := by
+  simp only [G_idx]; omega
+theorem G_idx_upd' (l l' : Line) : (l.idx : Int) + ((l'.idx : Int) - (l.idx : Int)) = (l'.idx : Int) := by omega
+theorem G_mk (l : Line) : ({ buf := l.buf.1, idx := (l.idx : Int) } : GLine) = G l := rfl
+
+/-- `l.index--` directly followed by `appendByte`: at cursor 0 Go's index becomes −1 and the store panics; the model's
+    `decIdx` panics one step earlier — the same outcome -/
+theorem dec_append (l : Line) (v : UInt8) :
+    genLine_appendByte { buf := (G l).buf, idx := (G l).idx - 1 } v = liftG (decIdx l >>= fun l => appendByte l v) := by
+  unfold decIdx
+  by_cases h : l.idx = 0
+  · simp [h, genLine_appendByte, setI]
+  · have hg : ({ buf := (G l).buf, idx := (G l).idx - 1 } : GLine) = G ⟨l.buf, l.idx - 1⟩ := by
+      simp only [G]; congr 1; omega
+    rw [if_neg h, hg]; exact appendByte_tie _ _
+
+theorem dec_append_step (l : Line) (v : UInt8) (k : GLine → Outcome GLine) (k' : Line → Outcome Line)
+    (h : ∀ l', k (G l') = liftG (k' l')) :
+    (genLine_appendByte { buf := (G l).buf, idx := (G l).idx - 1 } v >>= k) =
+      liftG (decIdx l >>= fun l => appendByte l v >>= k') := by
+  rw [dec_append, ← bind_assoc]; exact liftG_bind _ _ _ h
+
+theorem baBody_step (l : Line) (name value : Bytes) (tr : Bool) :
+    (do let l ← genLine_appendByte (G l) (32 : UInt8)
+        let (t4, t5) ← copyI l.buf l.idx (l.buf.length : Int) name
+        let l : GLine := { l with buf := t4 }
+        let l : GLine := { l with idx := (l.idx + t5) }
+        let (t6, t7) ← copyI l.buf l.idx (l.buf.length : Int) ([61, 91] : Bytes)
+        let l : GLine := { l with buf := t6 }
+        let l : GLine := { l with idx := (l.idx + t7) }
+        let k1 : Int := (0 : Int)
+        let l ← genLine_ByteArray_loop1 value (value.length + 1) k1 l
+        let l ← (do
+            if ((value.length : Int) > (0 : Int)) then do
+              let l : GLine := { l with idx := (l.idx - (1 : Int)) }
+              pure l
+            else do
+              pure l)
+        let l ← genLine_appendByte l (93 : UInt8)
+        let l ← (do
+            if (tr = true) then do
+              let l : GLine := { l with idx := (2047 : Int) }
+              pure l
+            else do
+              pure l)
+        pure l) = liftG (byteArrayBody l name value tr) := by
+  unfold byteArrayBody
+  rw [appendByte_tie]; apply liftG_bind; intro l1
+  apply copy_step; intro l2
+  simp only [G_idx_upd]
+  apply copy_step l2; intro l3
+  simp only [G_idx_upd', G_mk]
+  have hl := byteArray_loop_eq value [] l3 (value.length + 1) (by omega)
+  simp only [List.nil_append, List.length_nil, Int.natCast_zero] at hl
+  rw [hl]; apply liftG_bind; intro l4
+  by_cases hv : value.length > 0
+  · have hv' : ((value.length : Nat) : Int) > 0 := by omega
+    rw [if_pos hv, if_pos hv']
+    simp only [Outcome.pure_eq, Outcome.bind_ok]
+    apply dec_append_step; intro l5
+    cases tr <;> rfl
+  · have hv' : ¬ ((value.length : Nat) : Int) > 0 := by omega
+    rw [if_neg hv, if_neg hv']
+    simp only [Outcome.pure_eq, Outcome.bind_ok]
+    rw [appendByte_tie]; apply liftG_bind; intro l5
+    cases tr <;> rfl
+
+/-- `copy(l.buffer[cap-10:], "TRUNCATED ")` never panics; both sides produce the same buffer -/
+theorem copyI_trunc (b : Buf) : ∃ b' : Buf, ∃ n : Nat,
+    copyTo b (bufSize - 10) bufSize sTruncated = .ok (b', n) ∧
+    copyI b.1 (2038 : Int) (b.1.length : Int) [84, 82, 85, 78, 67, 65, 84, 69, 68, 32] = .ok (b'.1, (n : Int)) := by
+  refine ⟨b.splice 2038 sTruncated, 10, ?_, ?_⟩
+  · simp [copyTo, bufSize, sTruncated]
+  · simp [copyI, b.2, bufSize, Buf.splice, splice, sTruncated]
+
+/-- `value[:k]` -/
+theorem sliceI_prefix (v : Bytes) (k : Int) :
+    sliceI v 0 k = if k < 0 ∨ k > (v.length : Int) then .panic else .ok (v.take k.toNat) := by
+  unfold sliceI
+  by_cases h : k < 0 ∨ k > (v.length : Int)
+  · have : ¬ ((0 : Int) ≤ 0 ∧ 0 ≤ k ∧ k ≤ (v.length : Int)) := by omega
+    rw [if_pos h, if_neg this]
+  · have : ((0 : Int) ≤ 0 ∧ 0 ≤ k ∧ k ≤ (v.length : Int)) := by omega
+    rw [if_neg h, if_pos this]; simp
+
+/-- **ByteArray** (truncation arithmetic, the "TRUNCATED " marker at the buffer end, the hex loop, the trailing-space
+    step back, `]`, cursor parked at the last byte when truncated) -/
+theorem byteArray_tie (l : Line) (name value : Bytes) :
+    genLine_ByteArray (G l) name value = liftG (byteArray l name value) := by
+  unfold genLine_ByteArray byteArray
+  dsimp only [G_idx, G_buf]
+  have hb : ((bufSize : Nat) : Int) = 2048 := rfl
+  rw [hb]
+  generalize (2048 : Int) - (l.idx : Int) - 1 - (name.length : Int) - 2 = rem
+  by_cases h1 : rem ≤ (value.length : Int) * 3
+  · rw [if_pos h1, if_pos h1]
+    by_cases h2 : rem < 10
+    · rw [if_pos h2, if_pos h2]; rfl
+    · rw [if_neg h2, if_neg h2]
+      obtain ⟨b', n, hc1, hc2⟩ := copyI_trunc l.buf
+      rw [hc1, hc2, sliceI_prefix]
+      simp only [Outcome.bind_ok]
+      by_cases h3 : (rem - 10).tdiv 3 < 0 ∨ (rem - 10).tdiv 3 > (value.length : Int)
+      · rw [if_pos h3, if_pos h3]; rfl
+      · rw [if_neg h3, if_neg h3]
+        exact baBody_step ⟨b', l.idx⟩ name _ true
+  · rw [if_neg h1, if_neg h1]
+    exact baBody_step l name value false
+
 /-- every method of `*fastlog.Line` is a candidate; these are the ones the translator expresses -/
 theorem translated_accounted : fastlogLoopsTranslated.map (·.1) =
     ["fastlog.(*Line).Bool", "fastlog.(*Line).ByteArray", "fastlog.(*Line).Bytes", "fastlog.(*Line).LF",
